@@ -367,7 +367,7 @@ fn count_sum(text: &str) -> (Option<u64>, Option<f64>) {
     };
     (f.samples.iter().find(|s| s.name == "h_two_count").and_then(|s| s.value.parse().ok()), f.samples.iter().find(|s| s.name == "h_two_sum").map(|s| s.value_f64()))
 }
-fn e1(ctx: &Ctx, res: &mut PartResult, pb: usize, recorders: usize) {
+fn e1(ctx: &Ctx, res: &mut PartResult, pb: usize, recorders: usize, prefill: u64) {
     let mut bodies: Vec<Body<S>> = Vec::new();
     let mut vals: Vec<f64> = Vec::new();
     for t in 0..recorders {
@@ -386,7 +386,11 @@ fn e1(ctx: &Ctx, res: &mut PartResult, pb: usize, recorders: usize) {
     }
     bodies.push(body(|s: &S| {
         s.log.push(("rcall".into(), 0, None, None));
-        let (c, sm) = count_sum(&s.h.render());
+        let text = s.h.render();
+        if std::env::var("C07_DEBUG").is_ok() {
+            eprintln!("RENDER0: {:?}", text);
+        }
+        let (c, sm) = count_sum(&text);
         s.log.push(("rret".into(), 0, c, sm));
         s.h.run_upkeep();
         s.log.push(("rcall".into(), 1, None, None));
@@ -395,10 +399,14 @@ fn e1(ctx: &Ctx, res: &mut PartResult, pb: usize, recorders: usize) {
     }));
     let vals2 = vals.clone();
     let scn = Scenario {
-        name: format!("{} recorder thread(s) x 2 record() || drainer (render, run_upkeep, render); final render", recorders),
-        setup: Box::new(|| {
+        name: format!("{} recorder thread(s) x 2 record() || drainer (render, run_upkeep, render); final render; {} samples (value 0) recorded beforehand so that the racing records straddle the 64-slot block hand-over", recorders, prefill),
+        setup: Box::new(move || {
             let rec = PrometheusBuilder::new().build_recorder();
             let h = rec.handle();
+            let hist = rec.register_histogram(&mk_key(7), &META);
+            for _ in 0..prefill {
+                hist.record(0.0);
+            }
             S { rec, h, log: Log::new() }
         }),
         bodies,
@@ -406,8 +414,8 @@ fn e1(ctx: &Ctx, res: &mut PartResult, pb: usize, recorders: usize) {
             let (fc, fs) = count_sum(&s.h.render());
             let log = s.log.get();
             let total: f64 = vals2.iter().sum();
-            if fc != Some(vals2.len() as u64) || fs != Some(total) {
-                return fail("histogram-sample-lost-or-double-counted", format!("final _count {:?} _sum {:?}; {} samples summing to {} were recorded (each sample a distinct power of two)", fc, fs, vals2.len(), total));
+            if fc != Some(vals2.len() as u64 + prefill) || fs != Some(total) {
+                return fail("histogram-sample-lost-or-double-counted", format!("final _count {:?} _sum {:?}; {} samples summing to {} were recorded (each racing sample a distinct power of two, {} zeros beforehand)", fc, fs, vals2.len() as u64 + prefill, total, prefill));
             }
             let mut last = 0u64;
             for (i, e) in log.iter().enumerate() {
@@ -415,6 +423,7 @@ fn e1(ctx: &Ctx, res: &mut PartResult, pb: usize, recorders: usize) {
                     let start = log.iter().position(|x| x.0 == "rcall" && x.1 == e.1).unwrap();
                     let completed_before = (0..vals2.len()).filter(|id| log.iter().position(|x| x.0 == "ret" && x.1 == *id).map(|p| p < start).unwrap_or(false)).count() as u64;
                     let started_before = (0..vals2.len()).filter(|id| log.iter().position(|x| x.0 == "call" && x.1 == *id).map(|p| p < i).unwrap_or(false)).count() as u64;
+                    let (completed_before, started_before) = (completed_before + prefill, started_before + prefill);
                     let c = e.2.unwrap_or(0);
                     if c == u64::MAX {
                         return fail("malformed-exposition", "a concurrent render produced unparsable text".into());
@@ -427,7 +436,7 @@ fn e1(ctx: &Ctx, res: &mut PartResult, pb: usize, recorders: usize) {
                     }
                     // the sum must be a sum of distinct recorded samples: its bits must be a subset of the recorded powers of two
                     let sm = e.3.unwrap_or(0.0) as u64;
-                    if sm.count_ones() as u64 != c {
+                    if (sm.count_ones() as u64) + prefill != c && !(prefill > 0 && c < prefill) {
                         return fail("histogram-sample-lost-or-double-counted", format!("render {} reports _count {} with _sum {} (not a sum of {} distinct recorded samples)", e.1, c, sm, c));
                     }
                     last = c;
@@ -449,6 +458,7 @@ fn parts(ctx: &Ctx) -> Vec<PartSpec> {
         }
         v.push(PartSpec::new("e1-1recorder-pb2", json!({"e1": 2, "recorders": 1})).cpus("0"));
         v.push(PartSpec::new("e1-2recorders-pb2", json!({"e1": 2, "recorders": 2})).cpus("0").budget(45.0));
+        v.push(PartSpec::new("e1-2recorders-handover63-pb2", json!({"e1": 2, "recorders": 2, "prefill": 63})).cpus("0").budget(50.0));
     } else {
         for (ci, _) in CONFIGS.iter().enumerate() {
             for f in 0..n {
@@ -457,6 +467,8 @@ fn parts(ctx: &Ctx) -> Vec<PartSpec> {
         }
         v.push(PartSpec::new("e1-1recorder-pb4", json!({"e1": 4, "recorders": 1})).cpus("0").budget(1500.0));
         v.push(PartSpec::new("e1-2recorders-pb3", json!({"e1": 3, "recorders": 2})).cpus("1").budget(2400.0));
+        v.push(PartSpec::new("e1-2recorders-handover63-pb3", json!({"e1": 3, "recorders": 2, "prefill": 63})).cpus("2").budget(2400.0));
+        v.push(PartSpec::new("e1-1recorder-handover62-pb3", json!({"e1": 3, "recorders": 1, "prefill": 62})).cpus("3").budget(2400.0));
     }
     v
 }
@@ -466,7 +478,7 @@ fn run(ctx: &Ctx, spec: &PartSpec) -> PartResult {
     if spec.arg["long"].as_bool() == Some(true) {
         e3_long(&mut res);
     } else if let Some(pb) = spec.arg["e1"].as_u64() {
-        e1(ctx, &mut res, pb as usize, spec.arg["recorders"].as_u64().unwrap_or(1) as usize);
+        e1(ctx, &mut res, pb as usize, spec.arg["recorders"].as_u64().unwrap_or(1) as usize, spec.arg["prefill"].as_u64().unwrap_or(0));
     } else {
         e3(ctx, &mut res, CONFIGS[spec.arg["cfg"].as_u64().unwrap_or(0) as usize], spec.arg["depth"].as_u64().unwrap_or(4) as usize, spec.arg["first"].as_u64().map(|x| x as usize));
     }
